@@ -7,6 +7,7 @@ the loader rewrites:
   N3  if not c: A else: B              ->  if c: B else: A           (two-armed ifs; elif chains untouched)
   N4  t = E; return t                  ->  return E                  (t bound immediately before, used only there)
   N5  assert True / bare constants     ->  removed                   (expression statements that are constants, except docstrings)
+  N8  x = []; for t in it: x.append(E)  ->  x = [E for t in it]   (the loop immediately follows the empty-list assignment)
   N7  logging.<...>(...) / warnings.<...>(...) statements -> removed    (calls rooted at the logging / warnings modules)
   N6  while True: if X: break; rest    ->  while not X: rest         (loops without else whose first statement is the exit test)
 Line numbers of the surviving statements are preserved, so reports still point at the original source lines.
@@ -77,6 +78,28 @@ class _N(ast.NodeTransformer):
                 continue
             res.append(st)
             i += 1
+        # N8: x = []; for t in it: x.append(E)   ->   x = [E for t in it]
+        res2: List[ast.stmt] = []
+        i = 0
+        while i < len(res):
+            st = res[i]
+            nxt = res[i + 1] if i + 1 < len(res) else None
+            if isinstance(st, ast.Assign) and len(st.targets) == 1 and isinstance(st.targets[0], ast.Name) \
+                    and isinstance(st.value, ast.List) and not st.value.elts and isinstance(nxt, ast.For) and not nxt.orelse \
+                    and len(nxt.body) == 1 and isinstance(nxt.body[0], ast.Expr) and isinstance(nxt.body[0].value, ast.Call):
+                c = nxt.body[0].value
+                name = st.targets[0].id
+                if isinstance(c.func, ast.Attribute) and c.func.attr == "append" and isinstance(c.func.value, ast.Name) \
+                        and c.func.value.id == name and len(c.args) == 1 and not c.keywords \
+                        and name not in {n.id for n in ast.walk(c.args[0]) if isinstance(n, ast.Name)} \
+                        and name not in {n.id for n in ast.walk(nxt.iter) if isinstance(n, ast.Name)}:
+                    comp = ast.ListComp(elt=c.args[0], generators=[ast.comprehension(target=nxt.target, iter=nxt.iter, ifs=[], is_async=0)])
+                    res2.append(ast.copy_location(ast.Assign(targets=[ast.Name(id=name, ctx=ast.Store())], value=comp), st))
+                    i += 2
+                    continue
+            res2.append(st)
+            i += 1
+        res = res2
         if not res:
             res = [ast.copy_location(ast.Pass(), stmts[0])] if stmts else []
         return res
